@@ -345,6 +345,32 @@ pub fn gen_opt_shapes(out: &mut Vec<Design>, scope: Scope) {
             .l("inst u: DeadSlices (\n    a,\n    b,\n    y,\n);")
             .finish(),
     );
+    // `let`s whose ONLY readers are index positions: the dynamic element index and the dynamic
+    // bit select of a runtime-indexed array WRITE (comb and ff), and the dynamic index of a read.
+    // Liveness must count an index expression as a read even though it is not a value operand.
+    out.push(
+        B::new("opt", "opt/dce/indexonly")
+            .core(true)
+            .tag("dead_var_dce")
+            .inp("a", 2, false)
+            .inp("b", 2, false)
+            .out("y", 4, false)
+            .out("z", 4, false)
+            .out("q", 2, false)
+            .l("var m: logic<4> [4];
+var r: logic<4> [2];")
+            .l("let wi: logic<2> = a ^ b;")
+            .l("let bs: logic<2> = b + 2'd1;")
+            .l("let ri: logic<2> = a + b;")
+            .l("let fi: logic = a[0] ^ b[1];")
+            .l("let fb: logic<2> = a & ~b;")
+            .l("always_comb {\n    m[0] = {a, a};\n    m[1] = {a, b};\n    m[2] = {b, a};\n    m[3] = {b, b};\n    m[wi][bs] = 1'b1;\n}")
+            .l("assign y = m[ri];")
+            .l("always_ff {\n    if_reset {\n        r[0] = 0;\n        r[1] = 0;\n    } else {\n        r[fi][fb] = ~r[fi][fb];\n    }\n}")
+            .l("assign z = r[0] ^ r[1];")
+            .l(&ff("q", "0", "q + y[1:0]"))
+            .finish(),
+    );
     // ---- repeated loads (JIT load cache) with interleaved stores and if blocks ------------------
     out.push(
         B::new("opt", "opt/loads/repeat")
